@@ -235,7 +235,11 @@ def _has_return_in_loop_or_with(stmts, inside=False):
             continue
         if isinstance(st, ast.Return) and inside:
             return True
-        if isinstance(st, (ast.For, ast.AsyncFor, ast.While, ast.With, ast.AsyncWith)):
+        if isinstance(st, (ast.With, ast.AsyncWith)) and st is stmts[-1] and not inside:
+            # a with block that ends the helper: leaving it by `return` and falling out of it are the same exit (see _conv)
+            if _has_return_in_loop_or_with(st.body, False):
+                return True
+        elif isinstance(st, (ast.For, ast.AsyncFor, ast.While, ast.With, ast.AsyncWith)):
             if _has_return_in_loop_or_with(st.body, True) or _has_return_in_loop_or_with(getattr(st, "orelse", []) or [], True):
                 return True
         elif isinstance(st, ast.If):
@@ -294,6 +298,12 @@ def _conv(stmts, mode, target):
             if be and oe:
                 return out
             continue
+        if isinstance(st, (ast.With, ast.AsyncWith)) and any(isinstance(n, ast.Return) for s in st.body for n in _walk_local(s)):
+            if rest:
+                raise _NotInlinable("return inside with followed by code")
+            new = type(st)(items=st.items, body=_conv(st.body, mode, target) or [ast.copy_location(ast.Pass(), st)])
+            out.append(ast.copy_location(new, st))
+            return out
         if isinstance(st, ast.Try):
             has_ret = any(isinstance(n, ast.Return) for s in st.body + st.orelse + [x for h in st.handlers for x in h.body] for n in _walk_local(s))
             if has_ret:
